@@ -90,6 +90,18 @@ def newton_min(chi, p0, iters=60):
     return p
 
 
+
+def cmp_prior_aware(res_obs, q, rtol):
+    """string priors become covariance inputs named '#prior<i>_<random digits>': give the oracle's inputs that name"""
+    ren = {}
+    for cn in res_obs.covobs:
+        if cn.startswith('#prior'):
+            ren['prior' + cn[len('#prior'):].split('_')[0]] = cn
+    if ren:
+        q.cov = {ren.get(k, k): v for k, v in q.cov.items()}
+    return compare_q(res_obs, q, rtol=rtol)
+
+
 def check_case(ctx, case):
     probs = []
     with warnings.catch_warnings(), quiet():
@@ -109,10 +121,21 @@ def check_case(ctx, case):
         priors = {}
         if case['prior']:
             i = case['prior_i'] % len(truth)
-            po = pe.cov_Obs(truth[i] * 1.02, (0.1 * abs(truth[i])) ** 2, 'prior%d' % i)
-            po.gamma_method()
+            pk = case.get('prior_kind', 'obs')
+            if pk == 'obs':
+                po = pe.cov_Obs(truth[i] * 1.02, (0.1 * abs(truth[i])) ** 2, 'prior%d' % i)
+                po.gamma_method()
+                kw['priors'] = {i: po}
+            else:
+                # the documented string forms 'value(error)': error in units of the last digit, or with its own decimal point
+                from props.c07 import parse_prior
+                v_, e_ = truth[i] * 1.02, 0.1 * abs(truth[i])
+                txt = ('%.2f(%.2f)' % (v_, max(e_, 0.01))) if pk == 'str_dec' else ('%.3f(%d)' % (v_, max(1, int(round(e_ * 1000)))))
+                v2, e2 = parse_prior(txt)
+                po = pe.cov_Obs(v2, e2 ** 2, 'prior%d' % i)
+                po.gamma_method()
+                kw['priors'] = {i: txt}
             priors[i] = po
-            kw['priors'] = {i: po}
         if case['kind'] == 'ls':
             try:
                 res = pe.least_squares(x, ys, af, **kw)
@@ -163,7 +186,7 @@ def check_case(ctx, case):
             qs0 = [Q.of(o) for o in ys] + [Q.of(o) for o in priors.values()]
             for a in range(len(phat)):
                 qa = combine(lambda v, a=a: float(phat[a]), list(Sx[a]), qs0)
-                da = compare_q(res.fit_parameters[a], qa, rtol=1e-6)
+                da = cmp_prior_aware(res.fit_parameters[a], qa, 1e-6)
                 da = [z for z in da if not z.startswith('value') and not z.startswith('r_value')]
                 if da:
                     probs.append(('violation', 'implicit-function-fluctuations', ['parameter %d (rule evaluated at the returned point)' % a] + da[:3]))
@@ -189,7 +212,7 @@ def check_case(ctx, case):
             qs = [Q.of(o) for o in ys] + [Q.of(o) for o in priors.values()]
             for a in range(len(phat)):
                 q = combine(lambda v, a=a: float(phat[a]), list(S[a]), qs)
-                d = compare_q(res.fit_parameters[a], q, rtol=3e-4)
+                d = cmp_prior_aware(res.fit_parameters[a], q, 3e-4)
                 d = [z for z in d if not z.startswith('value') and not z.startswith('r_value')]
                 if d:
                     # the finite-difference oracle must be stable under a change of its own step before it may accuse
@@ -218,7 +241,7 @@ def check_case(ctx, case):
                     M = autograd.jacobian(autograd.grad(chi_a, 0), 1)(phat, dat0)
                     Sa = ift_solve(ctx, H, M)
                     qa = combine(lambda v, a=a: float(phat[a]), list(Sa[a]), qs)
-                    da = compare_q(res.fit_parameters[a], qa, rtol=1e-6)
+                    da = cmp_prior_aware(res.fit_parameters[a], qa, 1e-6)
                     da = [z for z in da if not z.startswith('value') and not z.startswith('r_value')]
                     if not da:
                         ctx.count('minimiser-tolerance-amplified')
@@ -322,7 +345,7 @@ def gen_case(ctx):
     kind = rng.choice(['ls', 'ls', 'tls'])
     case = {'seed': rng.getrandbits(28), 'model': model, 'kind': kind, 'npts': rng.randint(7, 11), 'nens': rng.choice([1, 3, 12]),
             'corr': rng.choice([0.0, 0.0, 1.0]), 'method': rng.choice(['LM', 'LM', 'migrad']), 'correlated': rng.random() < 0.3,
-            'num_grad': rng.random() < 0.25, 'prior': rng.random() < 0.35, 'prior_i': rng.randrange(4), 'sx': rng.choice([1e-9, 1e-9, 0.01, 0.03])}
+            'num_grad': rng.random() < 0.25, 'prior': rng.random() < 0.35, 'prior_i': rng.randrange(4), 'prior_kind': rng.choice(['obs', 'obs', 'str_dec', 'str_dig']), 'sx': rng.choice([1e-9, 1e-9, 0.01, 0.03])}
     if case['nens'] == 12:
         case['nens'] = case['npts']
     if kind == 'tls' and model == 'exp2':
